@@ -12,6 +12,7 @@
 -/
 import CedarProofs.DecodeText
 import CedarProofs.DecodeNoEnd
+import CedarGen.FactsAdRead
 
 namespace Cedar.C13
 
@@ -194,6 +195,47 @@ theorem cap_classad (cap : Nat) (hc : 0 < cap) (pfail : Option Nat) (s : St) :
     (getClassAd cap pfail s).2.m.need ≤ max s.m.need (max cap 8) ∧
     (getClassAd cap pfail s).2.m.held ≤ max s.m.held (max cap 8) :=
   ⟨((getClassAd_facts cap pfail s _ _ rfl).2 hc).need, ((getClassAd_facts cap pfail s _ _ rfl).2 hc).held⟩
+
+/-! ## "the bounded ClassAd reader used for every handshake ad" -/
+
+/-- Enclosing functions in security/ and ccb/ that read a ClassAd which is NOT a handshake /
+    control ad and may therefore use an uncapped reader. Hand-written; empty today: every ClassAd
+    these two packages read from a peer (negotiation ad, post-authentication ad, resume reply,
+    CCB control and reverse-connect ads) arrives before or while the peer is authenticated. -/
+def notHandshakeAdReaders : List String := []
+
+/-- the largest cap a handshake reader may pass (64 KiB: `ccb.maxControlAdSize`) -/
+def maxHandshakeAdCap : Nat := 65536
+
+/-- **every handshake ad is read by the bounded reader** — over the table of ALL calls of a ClassAd
+    reader of package message in security/ and ccb/ (regenerated from the sources on every run,
+    `tools/gen/facts_adread.go`): each is `GetClassAdWithMaxSize` with a compile-time constant cap
+    between 1 and 64 KiB. A call of `GetClassAd`, `GetClassAdRaw`, … or a cap computed at run time
+    added to a handshake breaks this theorem. -/
+theorem handshake_ads_capped :
+    ∀ s ∈ CedarGen.FactsAdRead.adReadSites,
+      s.fn ∈ notHandshakeAdReaders ∨ (s.capped = true ∧ 0 < s.cap ∧ s.cap ≤ maxHandshakeAdCap) := by
+  decide
+
+/-- hence at every such site nothing beyond 64 KiB is ever requested from the wire at once or held
+    under construction, whatever the peer sends (`cap_classad` at the site's cap) -/
+theorem handshake_ads_bounded (pfail : Option Nat) (st : St) :
+    ∀ s ∈ CedarGen.FactsAdRead.adReadSites, s.fn ∉ notHandshakeAdReaders →
+      (getClassAd s.cap pfail st).2.m.need ≤ max st.m.need maxHandshakeAdCap ∧
+      (getClassAd s.cap pfail st).2.m.held ≤ max st.m.held maxHandshakeAdCap := by
+  intro s hs hn
+  rcases handshake_ads_capped s hs with h | ⟨_, hpos, hle⟩
+  · exact absurd h hn
+  · obtain ⟨h1, h2⟩ := cap_classad s.cap hpos pfail st
+    have : max s.cap 8 ≤ maxHandshakeAdCap := by
+      have : (8 : Nat) ≤ maxHandshakeAdCap := by decide
+      omega
+    exact ⟨by omega, by omega⟩
+
+/-- non-vacuity: the table is not empty — it lists the negotiation ad of both roles, the
+    post-authentication ad, the resume reply and both CCB readers -/
+example : CedarGen.FactsAdRead.adReadSites.length ≥ 6 ∧
+    "GetClassAdWithMaxSize" ∈ CedarGen.FactsAdRead.adReaders ∧ "GetClassAd" ∈ CedarGen.FactsAdRead.adReaders := by decide
 
 /-- **the skipping reader allocates (almost) nothing** — `SkipClassAdRaw` follows the secret marker
     by looking only at strings exactly as long as the marker (`skipStringIs`: a `GetBytes` of at
